@@ -170,8 +170,12 @@ def c13(tier, seed):
     exe3, _ = build.build_hist("idn2", flags=True)
     build_info["flags_variant"] = "build with -DRFC6531_FOLLOW_RFC5322 -DRFC6531_FOLLOW_RFC20 -DLABELS_ALLOW_UNDERSCORE also run"
     batches.append(Batch("flags-nofault", exe3, "C13", "nofault", seed + 4, 4000 if xq else 10**8, 60 if xq else 120, W, samples=False).run())
+    if tier == "thorough":
+        # histories of more than 2^16 operations (16-bit counters, thresholds): few, long
+        batches.append(Batch("nofault-long", exe, "C13", "nofault-long", seed + 7, 64, 300, W).run())
+        batches.append(Batch("fault-long", exe, "C13", "fault-long", seed + 7, 64, 300, W).run())
     violations, known, nondet = handle_candidates("C13", batches)
-    rule = ("plan = seeded history of 1-200 ops {SET_RFC, SET_TLD, SET_ALLOW, SETUP, IS_EMAIL, ERRSTR, READ_RESULT, FREE_INIT} over 1-3 eav_t "
+    rule = ("plan = seeded history of 1-200 ops (one plan in 150: 260-760 ops; thorough also 65 600+ ops) {SET_RFC, SET_TLD, SET_ALLOW, SETUP, IS_EMAIL, ERRSTR, READ_RESULT, FREE_INIT} over 1-3 (one plan in 25: 4-8) eav_t "
             "objects and a per-plan address pool (swarm: op mix, pool size, caller-buffer mode, and - in fault batches - a per-plan 'world' in which a drawn share of the pool addresses never converts: fixed code and buffer behaviour per address), one address in five structurally mutated, plus the complete enumeration of all op sequences up to length 4 (thorough: 5) "
             "over a 21-symbol alphabet and a 6-address pool on one object; distinct = distinct hash of (ops, nobj); "
             "non-trivial = executed >=1 state-changing op AND >=1 reused-vs-fresh outcome comparison (AND >=1 fired IDN fault in fault batches)")
